@@ -99,6 +99,7 @@ type pathState struct {
 	randRanges []value
 	randVars   []*Term
 	probMode   bool
+	seededRand bool // draws are uninterpreted functions of the generator state (see genDraw)
 	lastSeed    value
 	lastSeedSym bool
 	seeded      bool
